@@ -235,7 +235,7 @@ PROPS = {
             "programs executed": lambda a, t: a.counts.get("programs", 0) >= 1000,
         },
         assumptions=["EXEC.CMD replaced by a harmless stub (statement's envelope)",
-                     "size-like operands above 5000 (300 for LIST.NEIGHBOR*) and heaps above 96 MiB are outside the envelope and counted, not judged"],
+                     "size-like operands above 5000 (70 000 for LIST.NEIGHBOR*, whose cost is linear) and heaps above 96 MiB are outside the envelope and counted, not judged"],
     ),
     "C02": dict(
         fuzz=dict(seconds=120),
